@@ -109,6 +109,14 @@ def path(c, job):
             except Exception as e:
                 ok = False
             c.prove("C09.type write-read-round-trip", ok, info=dict(default=repr(default)))
+            if hint is float and not isinstance(default, (list, tuple)):
+                # a float-hinted tunable holds any float, whatever python type its default literal has
+                try:
+                    o.t = 0.25
+                    ok = o.t == 0.25 and ntcore.STORE.values.get(f"/components/o{i}/t") == 0.25
+                except Exception as e:
+                    ok = False
+                c.prove("C09.type write-read-round-trip", ok, info=dict(default=repr(default), hint="float", wrote=0.25))
         # rejected defaults
         for bad in (object(), None, {"a": 1}):
             try:
@@ -321,6 +329,30 @@ def path_special(c, job, mt, ntcore):
                 got = f"<read failed: {type(e).__name__}>"
             c.prove("C09.rw read-returns-latest-from-either-side", _same(got, v), info=dict(attr=a, shared_descriptor=True))
         return
+    if what == "rebind":
+        # the same object is connected a second time (renamed component, or moved to another owner kind)
+        class Owner:
+            a = mt.tunable(1.5)
+            keep = mt.tunable(2.5, writeDefault=False)
+
+        o = Owner()
+        mt.setup_tunables(o, "first", "components")
+        v1 = c.real("v1", -100, 100)
+        o.a = v1
+        o.keep = v1
+        kind2 = ["components", "autonomous", None][c.choose("second_owner_kind", 3)]
+        mt.setup_tunables(o, "second", kind2)
+        pfx = "/second" if kind2 is None else f"/{kind2}/second"
+        c.reach("rebind")
+        c.prove("C09.key documented-key-and-type", f"{pfx}/a" in ntcore.STORE.values and f"{pfx}/keep" in ntcore.STORE.values, info=dict(got=sorted(ntcore.STORE.values)))
+        c.prove("C09.init writeDefault-rule", _same(o.a, 1.5) and _same(o.keep, 2.5), info=dict(rebind=True))
+        v2 = c.real("v2", -100, 100)
+        ntcore.NetworkTableInstance.getDefault().getEntry(f"{pfx}/a").set(v2)
+        c.prove("C09.rw read-returns-latest-from-either-side", _same(o.a, v2), info=dict(rebind=True))
+        v3 = c.real("v3", -100, 100)
+        o.keep = v3
+        c.prove("C09.rw nt-side-sees-python-write", _same(ntcore.STORE.values.get(f"{pfx}/keep"), v3), info=dict(rebind=True))
+        return
     if what == "falsy-owner":
         # a component that is container-like: its truth value changes over time (empty queue = falsy)
         class Queue:
@@ -407,14 +439,14 @@ class C09(Spec):
         j += [dict(kind="rw", owner="components", subtable=None, type="int", K=1, redefine=True),
               dict(kind="rw", owner="robot", subtable="s", type="float", K=1, redefine=True)]
         j += [dict(kind="special", what="equal-owners", K=3 if tier == "quick" else 5), dict(kind="special", what="falsy-default"),
-              dict(kind="special", what="falsy-owner", K=3 if tier == "quick" else 5), dict(kind="special", what="shared-descriptor")]
+              dict(kind="special", what="falsy-owner", K=3 if tier == "quick" else 5), dict(kind="special", what="shared-descriptor"), dict(kind="special", what="rebind")]
         return j
 
     def bounds(self, tier):
         return dict(K=4 if tier == "quick" else 5, jobs=self.jobs(tier), values="symbolic real/int/bool per write; strings concrete tokens")
 
     def reach_required(self, tier):
-        return ["type-table", "preexisting-value", "existing-preserved", "existing-overwritten", "py-write", "nt-write", "redefined-tunable", "equal-owners", "falsy-default-with-existing-value", "falsy-owner", "shared-descriptor"]
+        return ["type-table", "preexisting-value", "existing-preserved", "existing-overwritten", "py-write", "nt-write", "redefined-tunable", "equal-owners", "falsy-default-with-existing-value", "falsy-owner", "shared-descriptor", "rebind"]
 
     def extra(self, tier, seed):
         from real.run import nt_contract
